@@ -267,6 +267,9 @@ def common_head(g, cfg, spec, nmax, nodefault=False):
 static void vp_fatal(const char *m) {
   vp_fatal_msg = m;
   VP_ASSERT(vp_expect_fatal, "fatal error hook reached unexpectedly");
+#ifdef VP_WITNESS_FATAL
+  VP_ASSERT(0, "WITNESS: the fatal-error hook is reached");
+#endif
   VP_END_PATH();
 }
 ''')
@@ -1263,7 +1266,7 @@ static int vp_live_count(void) { return vp_live; }
 '''
 
 
-def api_harness(g, cfg, spec, n, witness=False, alloc_fail=False, second_lex=False, op=0):
+def api_harness(g, cfg, spec, n, witness=False, alloc_fail=False, second_lex=False, op=0, fail_at=None):
     """Two user buffers (yy_scan_buffer in place / yy_scan_bytes copy), one
     yylex() step on the first, then a buffer operation chosen by the solver;
     the first buffer's unread input must be untouched and resumable."""
@@ -1275,6 +1278,10 @@ def api_harness(g, cfg, spec, n, witness=False, alloc_fail=False, second_lex=Fal
     H.append('#define VP_SECOND_LEX %d' % (1 if second_lex else 0))
     H.append('#define VP_REENTRANT %d' % (1 if cfg.api != 'nr' else 0))
     H.append('#define VP_OP %d' % op)
+    if fail_at is not None:
+        H.append('#define VP_FAIL_AT %d' % fail_at)
+    if witness and alloc_fail:
+        H = ['#define VP_WITNESS_FATAL 1'] + H
     if witness:
         H.append('#define VP_WITNESS 1')
     H.append(r'''
@@ -1314,6 +1321,9 @@ int main(void) {
   VP_ASSUME(vpi_tail0 == 0 && vpi_tail1 == 0);
 #endif
 #if VP_ALLOC_FAIL
+#ifdef VP_FAIL_AT
+  vpi_fail_at = VP_FAIL_AT;            /* one query per failing request index: sizes and control flow stay concrete */
+#endif
   VP_ASSUME(vpi_fail_at >= 0 && vpi_fail_at < 8);
   vp_expect_fatal = 1;            /* only legal outcome of a failed allocation besides an error return */
 #else
